@@ -146,6 +146,28 @@ def rule_dtype(P) -> RuleResult:
         else:
             _aggregate_dtype(it, P, reg, f, res)
 
+    # one implementation registered under several names (currency_meta / commodity_meta): the names are spellings of one
+    # function, so for the same operand types they announce the same type - the value returned cannot depend on the spelling
+    by_impl = {}
+    for f in reg.funcs:
+        if f.kind == 'function' and f.impl is not None:
+            by_impl.setdefault(f.impl.fq, []).append(f)
+    for fq_, fs in by_impl.items():
+        if len({f.name for f in fs}) < 2:
+            continue
+        sigs = {}
+        for f in fs:
+            sigs.setdefault(tuple(f.intypes), []).append(f)
+        for intypes, group in sigs.items():
+            outs = {tname(f.outtype) for f in group}
+            label = f'{"/".join(sorted({f.name for f in group}))}({", ".join(tname(t) for t in intypes)})'
+            if len(outs) > 1:
+                res.fail(f'function:{group[0].label}', 'result-type',
+                         f'{label}: one implementation ({fq_.split(":")[-1]}) registered under several names announces different types for '
+                         f'the same operands: ' + ', '.join(f'{f.name} -> {tname(f.outtype)}' for f in group), loc(group[0].impl))
+            elif len(group) > 1:
+                res.ok({'overload': label, 'spellings_agree_on': sorted(outs)[0]})
+
     # column accessors of the entries / postings tables ----------------
     for fq, cols in reg.tables.items():
         tinfo = reg.table_info[fq]
